@@ -456,7 +456,10 @@ class OpsMixin:
                     if len(nz) == 0:
                         return TRUE if op == "Eq" else FALSE
                     own = next(iter(v.lin.t)) if (len(v.lin.t) == 1 and v.lin.c == 0) else None
-                    if 1 < len(nz) <= 16 and not all(isinstance(bt, tuple) and bt[1] == own for bt in nz) \
+                    # a value that is an exact quotient/remainder of a wider value (a field carved out of a word that
+                    # was read in one go) is compared as a number, like a field read on its own
+                    carved = own is not None and any(own in qr for qr in st.divmemo.values())
+                    if 1 < len(nz) <= 16 and not carved and not all(isinstance(bt, tuple) and bt[1] == own for bt in nz) \
                             and all(isinstance(bt, tuple) and bt[0] in ("b", "n") for bt in nz):
                         # (v & mask) != 0 with several provenance bits: disjunction of the bits
                         f = None
